@@ -186,6 +186,22 @@ class Message:
                             return_type = subcls
                             break
                     break
+
+        # a command class says itself which of its subclasses carries a given
+        # header (`type_factory`, what `from_bytes` dispatches on): this finds
+        # the answer class also for commands whose classes are not named
+        # <X>, <X>Request and <X>Answer
+        factory = getattr(self.__class__, "type_factory", None)
+        if self.header.is_request and callable(factory):
+            try:
+                as_request = factory(self.header)
+                as_answer = factory(hdr)
+            except Exception:
+                as_request = as_answer = None
+            if (isinstance(as_request, type) and isinstance(self, as_request) and
+                    isinstance(as_answer, type) and issubclass(as_answer, Message) and
+                    not issubclass(as_answer, as_request)):
+                return_type = as_answer
         try:
             answer = return_type(hdr)
         except NameError:
